@@ -268,6 +268,15 @@ func buildUniverse() []*entry {
 		&model.IPPool{CIDR: mustNet("10.0.1.0/24"), VXLANMode: encap.Always},
 		&model.IPPool{CIDR: mustNet("10.0.1.0/24"), Disabled: true},
 	)
+	// a pool that COVERS the node addresses: REMOTE_HOST routes inside a cross-subnet pool, whose
+	// same-subnet flag depends on the local node's address (which may arrive before or after the
+	// remote node's) — fix e2a246c
+	add("pool:192.168", model.IPPoolKey{CIDR: netip.MustParsePrefix("192.168.0.0/16")},
+		&model.IPPool{CIDR: mustNet("192.168.0.0/16"), VXLANMode: encap.CrossSubnet},
+		&model.IPPool{CIDR: mustNet("192.168.0.0/16"), IPIPMode: encap.CrossSubnet},
+		&model.IPPool{CIDR: mustNet("192.168.0.0/16"), VXLANMode: encap.Always},
+		&model.IPPool{CIDR: mustNet("192.168.0.0/16")},
+	)
 	aff := func(h string) *string { s := "host:" + h; return &s }
 	blk := func(cidr, host string, borrowed map[int]string) *model.AllocationBlock {
 		b := &model.AllocationBlock{CIDR: mustNet(cidr), Affinity: aff(host), Allocations: make([]*int, 8)}
@@ -298,12 +307,22 @@ func buildUniverse() []*entry {
 		return &internalapi.Node{TypeMeta: metav1.TypeMeta{Kind: internalapi.KindNode, APIVersion: v3.GroupVersionCurrent},
 			ObjectMeta: metav1.ObjectMeta{Name: name}, Spec: internalapi.NodeSpec{BGP: &internalapi.NodeBGPSpec{IPv4Address: ip}}}
 	}
-	add("node:h0", model.ResourceKey{Kind: internalapi.KindNode, Name: localHost}, node(localHost, "192.168.0.1/24"), node(localHost, "192.168.5.1/24"))
-	add("node:h1", model.ResourceKey{Kind: internalapi.KindNode, Name: remote1}, node(remote1, "192.168.0.2/24"), node(remote1, "192.168.9.2/24"), node(remote1, "192.168.0.3/32"))
+	node6 := func(name, ip4, ip6 string) *internalapi.Node {
+		n := node(name, ip4)
+		n.Spec.BGP.IPv6Address = ip6
+		return n
+	}
+	// the local node also has a v6-ONLY variant (no IPv4 address: zero V4 CIDR — fix 7bc5b47) and a dual-stack one
+	add("node:h0", model.ResourceKey{Kind: internalapi.KindNode, Name: localHost}, node(localHost, "192.168.0.1/24"), node(localHost, "192.168.5.1/24"),
+		node6(localHost, "", "fd00:aa::1/64"), node6(localHost, "192.168.0.1/24", "fd00:aa::1/64"))
+	add("node:h1", model.ResourceKey{Kind: internalapi.KindNode, Name: remote1}, node(remote1, "192.168.0.2/24"), node(remote1, "192.168.9.2/24"), node(remote1, "192.168.0.3/32"),
+		node6(remote1, "192.168.0.2/24", "fd00:aa::2/64"))
 	add("node:h2", model.ResourceKey{Kind: internalapi.KindNode, Name: remote2}, node(remote2, "192.168.0.3/24"), node(remote2, "192.168.0.2/24")) // may duplicate h1's IP
 	add("vtep:h1", model.HostConfigKey{Hostname: remote1, Name: "IPv4VXLANTunnelAddr"}, "10.0.1.0", "10.0.1.7")
 	add("vtep:h2", model.HostConfigKey{Hostname: remote2, Name: "IPv4VXLANTunnelAddr"}, "10.0.2.0")
 	add("vtep:h0", model.HostConfigKey{Hostname: localHost, Name: "IPv4VXLANTunnelAddr"}, "10.0.0.0")
+	// a second (IPv6) VTEP address for h1: deleting vtep:h1 then leaves a VTEP that has LOST its v4 address (fix f51d894)
+	add("vtep6:h1", model.HostConfigKey{Hostname: remote1, Name: "IPv6VXLANTunnelAddr"}, "fd00:10::1", "fd00:10::7")
 	add("vtepmac:h1", model.HostConfigKey{Hostname: remote1, Name: "VXLANTunnelMACAddr"}, "66:00:00:00:00:01", "66:00:00:00:00:02")
 	return u
 }
